@@ -1,7 +1,7 @@
 // Kani harnesses on the real leaf functions of pdf/src/parser/lexer/mod.rs (appended as a #[cfg(kani)] module).
 // They prove, on the real code, the statements that unit.rs gives to the external_body (R7) helpers:
 //   hoist_boundary_ws / hoist_boundary_rev_ws / hoist_boundary_rev_not_ws   <- boundary, boundary_rev (+ is_whitespace, not)
-//   hoist_get_is_ws / hoist_get_is_delim                                     <- Lexer::is_whitespace, Lexer::is_delimiter
+//   hoist_get_is_ws / hoist_get_in_set                                       <- Lexer::is_whitespace, Lexer::is_delimiter
 //   hoist_all_ascii_digit                                                    <- is_int
 // and repeat the Verus obligations of is_whitespace / Substr::is_integer as an independent second opinion.
 // None of these functions constructs a PdfError.
